@@ -7,7 +7,7 @@ cd $W || exit 2
 git checkout -q -- . ; git clean -qfd -e target -e Cargo.lock
 mkdir -p tests
 rundemo() {
-  if [ -f $O/demo$N.rs ]; then cp $O/demo$N.rs tests/demo$N.rs; timeout 600 cargo test --offline --test demo$N >/tmp/mut/$ID-out/demo$N.log 2>&1; return $?
+  if [ -f $O/demo$N.rs ]; then cp $O/demo$N.rs tests/demo$N.rs; cp $O/*.inc tests/ 2>/dev/null; timeout 600 cargo test --offline --test demo$N >/tmp/mut/$ID-out/demo$N.log 2>&1; return $?
   elif [ -f $O/demo$N.sh ]; then (cd $W && timeout 600 bash $O/demo$N.sh >/tmp/mut/$ID-out/demo$N.log 2>&1); return $?
   elif [ -f $O/demo$N.py ]; then (cd $W && timeout 600 python3 $O/demo$N.py >/tmp/mut/$ID-out/demo$N.log 2>&1); return $?
   else echo "no demo"; return 99; fi
